@@ -134,6 +134,27 @@ def case_generated(acc, desc, kid, sid, enc_cek, content, cparams, kparams) -> N
         if bytes(back.pack(blob_in_envelope=in_env)) != packed:
             acc.violate("repack.bytes", case, {})
             continue
+        if len(packed) <= 70000:
+            # decoded from a buffer the caller goes on using: the decoded blob neither changes with the buffer nor pins it
+            bad = None
+            for form in ("bytearray", "memoryview"):
+                buf = bytearray(packed)
+                try:
+                    b2 = DPAPINGBlob.unpack(buf if form == "bytearray" else memoryview(buf))
+                    for i_ in range(0, len(buf), max(1, len(buf) // 997)):
+                        buf[i_] ^= 0xFF
+                    buf[-1:] = b"\x00"
+                    del buf[:]
+                    again = bytes(b2.pack(blob_in_envelope=in_env))
+                except Exception as e:  # noqa: BLE001
+                    bad = (f"buffer-reuse.exc.{type(e).__name__}", {"exc": repr(e), "form": form})
+                    break
+                if again != packed or b2 != obj:
+                    bad = ("buffer-reuse.aliased", {"form": form})
+                    break
+            if bad:
+                acc.violate(bad[0], case, bad[1])
+                continue
         acc.outcome("generated-ok")
 
 
